@@ -117,14 +117,32 @@ theorem run_append (a b : List Op) (c : Ctx) : run (a ++ b) c = run b (run a c) 
 theorem run_cons (o : Op) (ops : List Op) (c : Ctx) : run (o :: ops) c = run ops (step c o) := rfl
 
 /-- closing a group pops exactly the frame that the matching push created -/
-theorem pop_own_frame (o : Option ObjRef) (fnew : Frame) (rest : Ctx) (h : fnew.obj = o) (hr : rest ≠ []) :
-    pop o (fnew :: rest) = rest := by
+theorem pop_own_frame (o o' : Option ObjRef) (fnew : Frame) (rest : Ctx) (h : fnew.obj = o)
+    (hc : closes o o' = true) (hr : rest ≠ []) : pop o' (fnew :: rest) = rest := by
   cases rest with
   | nil => exact absurd rfl hr
   | cons a b =>
     cases o with
-    | none => simp [pop, popNone, h]
-    | some r => simp [pop, popObj, h]
+    | none =>
+      cases o' with
+      | none => simp [pop, popNone, h]
+      | some r => simp [closes] at hc
+    | some x =>
+      cases o' with
+      | none => simp [closes] at hc
+      | some r =>
+        simp only [closes, Bool.or_eq_true, Bool.and_eq_true, beq_iff_eq, bne_iff_ne, ne_eq] at hc
+        simp only [pop, popObj, h]
+        by_cases h1 : x.id = r.id
+        · simp [h1]
+        · rcases hc with hc | ⟨hp, hc⟩
+          · exact absurd hc h1
+          · simp only [h1, if_false, hp]
+            rcases hc with ⟨ht, hm⟩ | hn
+            · simp [ht, hm]
+            · by_cases ht : x.typeId = r.typeId ∧ r.modeEnd = true
+              · simp [ht]
+              · simp [ht, hn]
 
 theorem push_notDoc (o : Option ObjRef) (l : List (Nat × Val)) (c : Ctx) (h : notDoc o = true) :
     push o l c = { macros := l, lets := [], cats := cats c, obj := o } :: c := by
@@ -151,7 +169,7 @@ theorem balanced_frame {ops : List Op} (hb : Balanced ops) :
       · obtain ⟨op, hop, hs⟩ := s2 x h
         exact ⟨op, List.mem_cons_of_mem _ hop, hs⟩
       · exact ⟨o, List.mem_cons_self, s1 x h⟩
-  | group o locals body rest hnd _ _ ihb ihr =>
+  | group o o' locals body rest hnd hcl _ _ ihb ihr =>
     intro f t
     obtain ⟨fb, gb, hb1, eb, sb⟩ := ihb { macros := locals, lets := [], cats := cats (f :: t), obj := o } (f :: t)
     obtain ⟨f1, g1, h1, e1, _, _, sub1⟩ := extG_cons gb f t
@@ -159,7 +177,7 @@ theorem balanced_frame {ops : List Op} (hb : Balanced ops) :
     refine ⟨f2, g2 ++ g1, ?_, e2.trans e1, ?_⟩
     · rw [run_cons, run_append, run_cons]
       simp only [step]
-      rw [push_notDoc o locals (f :: t) hnd, hb1, pop_own_frame o fb _ eb (by rw [h1]; simp), h1, h2, extG_extG]
+      rw [push_notDoc o locals (f :: t) hnd, hb1, pop_own_frame o o' fb _ eb hcl (by rw [h1]; simp), h1, h2, extG_extG]
     · intro x hx
       rcases List.mem_append.mp hx with h | h
       · obtain ⟨op, hop, hs⟩ := s2 x h
